@@ -253,3 +253,34 @@ func H_C20_newlines_in_strings() {
 	}
 	verifReach("end")
 }
+
+// The line is a fact about *this* call: an earlier call — accepted or rejected — over a document that
+// contains the same literal, key or error elsewhere must not influence it.
+func H_C20_after_earlier_calls() {
+	verifBound("EARLIER_CALLS", 2)
+	bad := hBadLiteral()
+	isList := nondetIntRange(0, 1) == 1
+	// earlier calls: the same bad literal on another line, and an accepted document
+	var e hDoc
+	if nondetIntRange(0, 1) == 1 {
+		e.add("[", hWS(), hWS(), bad, ",", "1", "]")
+		hParseAny(true, e.s)
+	} else {
+		e.add("{", hWS(), `"a"`, ":", hWS(), bad, "}")
+		hParseAny(false, e.s)
+	}
+	hParseAny(true, "[1,\n\"a\"]")
+	hParseAny(false, "{\"a\":\n1}")
+	var d hDoc
+	if isList {
+		d.add("[", hWS(), "1", ",", hWS(), hWS(), bad, hWS())
+	} else {
+		d.add("{", hWS(), `"a"`, ":", hWS(), hWS(), bad, hWS())
+	}
+	off := len(d.s)
+	d.add(",", "\n")
+	hCheckLine(isList, d.s, off, "an invalid literal is reported on the line of the delimiter that ends it, whatever earlier calls have seen")
+	// and the same document again gives the same answer
+	hCheckLine(isList, d.s, off, "parsing the same malformed document twice cites the same line")
+	verifReach("end")
+}
